@@ -146,11 +146,18 @@ static int gen_table_sorter(fb_output_t *out, fb_compound_type_t *ct)
                     nsc, snt.text, n, s, nsc, "string");
             break;
         case vt_vector_compound_type_ref:
+            fb_compound_name(member->type.ct, &snref);
+            if (member->type.ct->symbol.kind == fb_is_enum) {
+                /* Enum vectors are scalar vectors named after the enum. */
+                fprintf(out->fp,
+                        "    __%ssort_vector_field(%s, %.*s, %s, t)\n",
+                        nsc, snt.text, n, s, snref.text);
+                break;
+            }
             if (!member->type.ct->primary_key) {
                 gen_panic(out, "internal error: unexpected type during code generation");
                 return -1;
             }
-            fb_compound_name(member->type.ct, &snref);
             switch (member->type.ct->symbol.kind) {
             case fb_is_table:
             case fb_is_struct:
